@@ -17,12 +17,16 @@ EntryPoints == {"json_object", "json_array_split", "json_array_i128", "json_arra
                 "json_array_bool", "json_array_null", "json_array_object", "base64_decode", "multipart_parse", "request_parse",
                 "response_parse", "header_parse", "content_disposition_parse", "content_range_parse", "range_header_parse",
                 "config_file", "path_extract_parts", "path_is_matching", "path_extract", "path_build", "boundary_extract",
-                "form_urlencoded_parse"}
+                "form_urlencoded_parse",
+                \* every width of the typed array readers, and the public parse functions that are reachable only through others in the server
+                "json_array_i8", "json_array_i16", "json_array_i32", "json_array_i64", "json_array_u16", "json_array_u32", "json_array_u64",
+                "json_array_u128", "json_array_f32", "json_property_parse", "url_parse", "url_parse_query", "cli_parse",
+                "range_multipart_body", "range_in_content_range", "base64_decode_sequence"}
 
 ByteClasses == {"nul", "del", "x80", "xc3", "xff", "quote", "backslash", "lbracket", "lbrace", "rbracket", "rbrace", "comma", "colon",
                 "minus", "e", "dot", "cr", "lf", "space", "percent", "equals", "slash", "digit9", "letter",
                 "utf8_2", "utf8_3", "utf8_4"}           \* well-formed 2-, 3- and 4-byte characters
-NSpecialNumbers == 24        \* the harness's table of boundary values: 0, 1, 2^7, 2^8, 2^15, 2^16, 2^31, 2^32, 2^63, 2^64, 2^127, 2^128 (each -1, +0), negatives, leading zeros, 1e400 ...
+NSpecialNumbers == 32        \* the harness's table of boundary values: 0, 1, 2^7, 2^8, 2^15, 2^16, 2^31, 2^32, 2^63, 2^64, 2^127, 2^128 (each -1, +0), negatives, leading zeros, 1e400 ...
 Positions == {0, 1, 5, 10, 25, 33, 50, 66, 75, 90, 95, 99, 1000}       \* per-mille of the seed length (1000 = at the end)
 Ops == {"identity", "truncate", "flip", "insert", "delete", "duplicate_tail", "nest", "long_line", "repeat_delim",
         "eol", "eol_truncate",
